@@ -15,7 +15,7 @@ import (
 )
 
 func init() {
-	props["C19"] = &propDef{extraPkgs: []string{jsonPatchPkg}, run: runC19, explanation: "Partial (panics raised by constructs in the module's own code and by the reviewed preconditions of third-party callees; not termination, stack depth or arbitrary third-party internals). Decided statically: a closed inventory of every panic-capable construct in the module functions reachable from the untrusted entry points — unchecked type assertions, dereferences (field access, load, pointer-receiver call, pass to a dereferencing callee) of pointers that JSON decoding can leave nil, index / slice expressions, explicit panic, integer division, make with computed size, definite nil dereferences (value tested nil on the path and then used), and interface-keyed map accesses and interface comparisons with possibly unhashable values, and calls with panicking preconditions (ed25519 key sizes; json-patch v4.1.0 Apply, which must run under a deferred recover that becomes an error, receive one operation per call and be preceded by a copy-into-itself check, because the library copy aliases nodes) — each discharged by a dominating guard found by the must-pass-through engine (through helper boundaries) or by a reviewed one-line reason keyed by function and expression. Anything undischarged is a violation naming the construct. The copy-into-itself check reads array-index tokens with the strconv function(s) the library's array containers use. The canonicalizer's table rules (C05) run inside this check; reviewed entries are keyed by the enclosing named function and the expression, with the dominating conditions they need. C19.Z (known-nil handed to a dereferencing callee), C19.N on (nil,nil)-helper results; the C05 scanner rules (including the position-loop rule, a necessary condition of termination) run here. The parser's validator fields are written by New and their own options only (never nil); reviewed entries follow call-and-wrap helpers."}
+	props["C19"] = &propDef{extraPkgs: []string{jsonPatchPkg}, run: runC19, explanation: "Partial (panics raised by constructs in the module's own code and by the reviewed preconditions of third-party callees; not termination, stack depth or arbitrary third-party internals). Decided statically: a closed inventory of every panic-capable construct in the module functions reachable from the untrusted entry points — unchecked type assertions, dereferences (field access, load, pointer-receiver call, pass to a dereferencing callee) of pointers that JSON decoding can leave nil, index / slice expressions, explicit panic, integer division, make with computed size, definite nil dereferences (value tested nil on the path and then used), and interface-keyed map accesses and interface comparisons with possibly unhashable values, and calls with panicking preconditions (ed25519 key sizes; json-patch v4.1.0 Apply, which must run under a deferred recover that becomes an error, receive one operation per call and be preceded by a copy-into-itself check, because the library copy aliases nodes) — each discharged by a dominating guard found by the must-pass-through engine (through helper boundaries) or by a reviewed one-line reason keyed by function and expression. Anything undischarged is a violation naming the construct. The copy-into-itself check reads array-index tokens with the strconv function(s) the library's array containers use. The canonicalizer's table rules (C05) run inside this check; reviewed entries are keyed by the enclosing named function and the expression, with the dominating conditions they need. C19.Z (known-nil handed to a dereferencing callee), C19.N on (nil,nil)-helper results; the C05 scanner rules (including the position-loop rule, a necessary condition of termination) run here. The parser's validator fields are written by New and their own options only (never nil); reviewed entries follow call-and-wrap helpers. Copy / move destination index bounded before Apply (D14); nil-returning lookup functions are nullable sources."}
 }
 
 // reviewedPanicSites: function (short name) -> expression (canonical path / description) -> reason.
@@ -216,6 +216,18 @@ func (c *Ctx) nullableSource(v ssa.Value, nf map[string]bool) string {
 		if mt, isM := x.X.Type().Underlying().(*types.Map); isM && !x.CommaOk {
 			if _, isP := mt.Elem().Underlying().(*types.Pointer); isP {
 				return "lookup in " + typeShort(x.X.Type())
+			}
+		}
+	case *ssa.Call:
+		// the single pointer result of a module function that answers "nothing there" with nil (a lookup by name written
+		// as a switch: parseEllipticCurve)
+		if g := x.Call.StaticCallee(); g != nil && inModule(g) && g.Blocks != nil && g.Signature.Results().Len() == 1 {
+			if _, isP := x.Type().Underlying().(*types.Pointer); isP {
+				for _, r := range returnsOf(g) {
+					if len(r.Results) == 1 && isNilConst(r.Results[0]) {
+						return "result of " + short(g.String()) + ", which may return nil"
+					}
+				}
 			}
 		}
 	}
@@ -1053,6 +1065,29 @@ func (k *c19) lenAtLeast(f *ssa.Function, at ssa.Instruction, lenExpr string, n 
 	if n <= 1 && strings.HasPrefix(lenExpr, "len(strings.Split(") && strings.HasSuffix(lenExpr, `"))`) && !strings.HasSuffix(lenExpr, `,""))`) {
 		return true
 	}
+	// a string known to be non-empty (`s != ""` on a dominating edge) has at least one byte
+	if n <= 1 && strings.HasPrefix(lenExpr, "len(") && strings.HasSuffix(lenExpr, ")") {
+		sp := lenExpr[len("len(") : len(lenExpr)-1]
+		for _, b := range f.Blocks {
+			iff, ok := b.Instrs[len(b.Instrs)-1].(*ssa.If)
+			if !ok {
+				continue
+			}
+			bo, ok := iff.Cond.(*ssa.BinOp)
+			if !ok || (bo.Op != token.EQL && bo.Op != token.NEQ) || !isStringType(bo.X.Type()) {
+				continue
+			}
+			l, r := c.Path(bo.X, nil), c.Path(bo.Y, nil)
+			if !((l == sp && r == `""`) || (r == sp && l == `""`)) {
+				continue
+			}
+			for si, succ := range b.Succs {
+				if len(succ.Preds) == 1 && succ.Dominates(at.Block()) && (si == 0) == (bo.Op == token.NEQ) {
+					return true
+				}
+			}
+		}
+	}
 	for _, b := range f.Blocks {
 		iff, ok := b.Instrs[len(b.Instrs)-1].(*ssa.If)
 		if !ok {
@@ -1659,6 +1694,42 @@ func (k *c19) aliasingCopy(f *ssa.Function, cl *ssa.Call) {
 		}
 	}
 	k.obl("C19.G", short(f.String())+": copy check reads array indices like the library", same, cl.Pos(), fmt.Sprintf("the library's array containers parse index tokens with %v; the module's copy-into-itself check parses them with %v", keysOfBool(libParse), keysOfBool(modParse)))
+	// (c) the library's array container grows to whatever index "copy" and "move" tell it to set (patch.go:
+	// partialArray.set makes idx+1 slots; RFC 6902 4.1 calls an index beyond the end an error): before Apply the operation
+	// must have passed a module check that looks at "op" ("copy", "move") and "path" and compares the parsed index with
+	// the length of an array — or a patch of fifty bytes allocates gigabytes and the process is killed
+	idxChk := &GCheck{Name: "copy / move destination index within the array", NoDescend: true, MatchCall: func(c *Ctx, call *ssa.Call, env Env) bool {
+		g := call.Call.StaticCallee()
+		if !inModule(g) || !returnsError(g) {
+			return false
+		}
+		fromPatch := false
+		for _, a := range call.Call.Args {
+			if backSlice(a)[base] {
+				fromPatch = true
+			}
+		}
+		cs := c.stringConstsDeep(g, 3)
+		if !fromPatch || !cs["copy"] || !cs["move"] || !cs["path"] {
+			return false
+		}
+		bounded := false
+		for _, h := range c.reachableModuleFuncs([]*ssa.Function{g}) {
+			forEachInstr(h, func(in ssa.Instruction) {
+				bo, isB := in.(*ssa.BinOp)
+				if !isB || !isCmp(bo.Op) {
+					return
+				}
+				l, r := c.Path(bo.X, nil), c.Path(bo.Y, nil)
+				if (strings.HasPrefix(l, "strconv.Atoi(") && strings.HasPrefix(r, "len(")) || (strings.HasPrefix(r, "strconv.Atoi(") && strings.HasPrefix(l, "len(")) {
+					bounded = true
+				}
+			})
+		}
+		return bounded
+	}}
+	okI, wI, _ := c.Guard(f, nil, idxChk, func(i ssa.Instruction) bool { return i == ssa.Instruction(cl) })
+	k.obl("C19.G", short(f.String())+": json-patch copy / move destination index bounded", okI, cl.Pos(), "json-patch v4.1.0 partialArray.set allocates index+1 slots for the destination of copy and move; before Apply the operation must have passed a module check that refuses a destination index beyond the end of the array it addresses", wI...)
 	ok, w, _ := c.Guard(f, nil, anyOf("copy-into-itself refused, or not a copy", chk, notCopy), func(i ssa.Instruction) bool { return i == ssa.Instruction(cl) })
 	k.obl("C19.G", short(f.String())+": json-patch copy into itself refused", ok, cl.Pos(), why+"; before Apply the operation must have passed a check (a module function returning an error that inspects \"op\" == \"copy\", \"from\" and \"path\" of this operation) refusing a copy whose from is a proper prefix of its path", w...)
 }
@@ -2202,6 +2273,12 @@ func impliedByAny(have []string, need string) bool {
 		return false
 	}
 	for _, h := range have {
+		// (`a && b` decided in a tagless switch arm is the φ of b and false: where it is true, b is)
+		if strings.HasPrefix(h, "phi(") && strings.HasSuffix(h, "|false)=true") {
+			h = h[len("phi("):len(h)-len("|false)=true")] + "=true"
+		} else if strings.HasPrefix(h, "phi(false|") && strings.HasSuffix(h, ")=true") {
+			h = h[len("phi(false|"):len(h)-len(")=true")] + "=true"
+		}
 		ha, hb, hs, okH := relOf(h)
 		if !okH {
 			continue
